@@ -418,10 +418,16 @@ def c17(tier, seed):
         t4 = session("c17-late-psk", PskMode="only", LatePsk=True, ExtraRs=[False, True], PubLens=[32], InitPads=[False], Variants=["tr"],
                      TrafficMode="short", PatSet=["XX", "IX", "NX", "XN", "X1X1", "XK1"])
         r4 = replay("C17", t4, seed, 1)
+        t5 = session("c17-other-rs", ExtraRs=[True], ExtraRsOther=True, PubLens=[32, 65], InitPads=[False], Variants=["tr", "sl"],
+                     TrafficMode="short", PatSet=["XX", "NX", "IX", "XN", "IN", "X1X1", "XK1", "NX1", "K1X", "X"])
+        r5 = replay("C17", t5, seed, 1)
     else:
         t4 = session("c17-late-psk", PskMode="only", LatePsk=True, ExtraRs=[False, True], PubLens=[32, 65], InitPads=[False],
                      Variants=["tr"], TrafficMode="short")
         r4 = replay("C17", t4, seed, 1, threads=14)
+        t5 = session("c17-other-rs", ExtraRs=[True], ExtraRsOther=True, PskMode="single", InitPads=[False], Variants=["tr", "sl"],
+                     TrafficMode="short")
+        r5 = replay("C17", t5, seed, 1, threads=14)
         t1 = session("c17-honest", PskMode="all", InitPads=[False])
         r1 = replay("C17", t1, seed, 2, threads=14)
         t2 = session("c17-faults", FaultBudget=1, FaultKinds=kinds, PskMode="single", InitPads=[False],
@@ -430,7 +436,9 @@ def c17(tier, seed):
         t3 = session("c17-extra-rs", ExtraRs=[True], FaultBudget=1, FaultKinds=["ralt", "rtrunc", "routbuf", "rstale"],
                      InitPads=[False], Variants=["tr", "sl"], TrafficMode="short", PskMode="single")
         r3 = replay("C17", t3, seed, 1, threads=14)
-    return merge("model_checking", [t1, t2, t3, t4], [r1, r2, r3, r4], RULE_D1 +
+    return merge("model_checking", [t1, t2, t3, t4, t5], [r1, r2, r3, r4, r5], RULE_D1 +
+                 "and with ANOTHER key than the peer's handed to the builder where the pattern transmits the key (the "
+                 "transmitted key is the one to report, and the session is an ordinary one); "
                  "and with a psk installed late (a message refused for the missing psk after its static key field was read must "
                  "not leave that key behind); "
                  "also with the peer's key handed to the builder although the pattern transmits it (a rejected message must "
